@@ -29,6 +29,9 @@ const Prelude = `
 (declare-fun selem (Slice Int) Ptr)
 (assert (forall ((s Slice) (i Int)) (! (= (selem s i) (elemp (sbase s) (+ (soff s) i))) :pattern ((selem s i)))))
 (define-fun nilslice () Slice (mkslice nil 0 0 0))
+(define-fun inslice ((p Ptr) (s Slice)) Bool (and (not (= p nil)) (not (= (sbase s) nil)) (= (pobj p) (pobj (sbase s))) ((_ is elem) (ppath p)) (= (ebase (ppath p)) (ppath (sbase s))) (<= (soff s) (eidx (ppath p))) (< (eidx (ppath p)) (+ (soff s) (slen_ s)))))
+(define-fun slicesdisjoint ((a Slice) (b Slice)) Bool (or (= (sbase a) nil) (= (sbase b) nil) (not (= (pobj (sbase a)) (pobj (sbase b)))) (and (= (ppath (sbase a)) (ppath (sbase b))) (or (<= (+ (soff a) (slen_ a)) (soff b)) (<= (+ (soff b) (slen_ b)) (soff a))))))
+(define-fun subrange ((a Slice) (b Slice)) Bool (or (<= (slen_ a) 0) (and (not (= (sbase a) nil)) (= (sbase a) (sbase b)) (<= (soff b) (soff a)) (<= (+ (soff a) (slen_ a)) (+ (soff b) (slen_ b))))))
 (define-fun niliface () Iface (mkiface 0 0))
 (declare-fun str_empty () Str)
 (assert (= (slen str_empty) 0))
